@@ -91,6 +91,17 @@ def runAll (stdin : Bool) : List (CreateMsg × Script) → LSt R → LSt R × Li
 def streamCloses (stdin : Bool) (cms : List (CreateMsg × Script)) (s : LSt R) : Bool :=
   (runAll stdin cms s).1.done == s.done + cms.length
 
+/-- `rpc/rpc.go` Vibranium.RunAndWait, synchronous mode: `for m := range ch { if Send(m) fails { log } }`
+— a failed `stream.Send` (client gone) is logged and the loop GOES ON: the channel is drained to
+the end whatever `send` answers. The workers write to an unbuffered channel without watching
+the context, so they only reach their deferred removal / commit if every message is taken.
+Result: (delivered, logged as unsent). -/
+def rpcForward (send : Msg → Bool) : List Msg → List Msg × List Msg
+  | [] => ([], [])
+  | m :: rest =>
+    let r := rpcForward send rest
+    if send m then (m :: r.1, r.2) else (r.1, m :: r.2)
+
 /-- messages of one workload, in order -/
 def msgsOf (id : Nat) (ms : List Msg) : List Msg := ms.filter (fun m => m.wid == id)
 
